@@ -180,6 +180,41 @@ def _run_laws(desc):
     if not np.array_equal(g, g_in):
         sh.violation("uncompute_g_vectors:modifies-the-g-vectors-it-is-given", case, {})
         g = g_in
+    # (v) the angles as the caller may hold them: an INTEGER omega array (np.arange over whole degrees) gives what the same values as
+    # floats give - for a grain off the axis too (non-integer t_z) - and an omega buffer REFILLED IN PLACE between calls (one array
+    # object, new angles) is answered for the angles it holds now
+    om_i = np.arange(-170, 190, 20)
+    om_f = om_i.astype(float)
+    ni = len(om_i)
+    tth_i, eta_i = np.linspace(3.0, 25.0, ni), np.linspace(-170.0, 175.0, ni)
+    t_ = (12.25, -4.5, 0.3)
+    k_i = tr.compute_k_vectors(tth_i, eta_i, wvln)
+    xyz_i = np.array([np.full(ni, 1e5), 3e3 * np.sin(om_f), 4e3 * np.cos(om_f)])
+    fns = {"compute_grain_origins": lambda o: tr.compute_grain_origins(o, wedge=wedge, chi=chi, t_x=t_[0], t_y=t_[1], t_z=t_[2]),
+           "compute_g_vectors": lambda o: tr.compute_g_vectors(tth_i, eta_i, o, wvln, wedge=wedge, chi=chi),
+           "compute_g_from_k": lambda o: tr.compute_g_from_k(k_i, o, wedge=wedge, chi=chi),
+           "compute_tth_eta_from_xyz": lambda o: np.array(tr.compute_tth_eta_from_xyz(xyz_i, o, t_x=t_[0], t_y=t_[1], t_z=t_[2], wedge=wedge, chi=chi)),
+           "compute_xyz_from_tth_eta": lambda o: np.array(tr.compute_xyz_from_tth_eta(tth_i, eta_i, o, t_x=t_[0], t_y=t_[1], t_z=t_[2], wedge=wedge, chi=chi,
+                                                                                   distance=1e5, y_center=1000.0, z_center=1000.0, y_size=50.0, z_size=50.0))}
+    for name, fn in fns.items():
+        a_, b_ = np.asarray(fn(om_i), float), np.asarray(fn(om_f), float)
+        if a_.shape != b_.shape or not np.allclose(a_, b_, rtol=0, atol=1e-9 * max(1.0, np.abs(b_).max())):
+            sh.violation("transform.%s:integer-omega-array-gives-another-answer-than-the-same-angles-as-floats" % name, case,
+                         {"max_diff": float(np.abs(a_ - b_).max()) if a_.shape == b_.shape else None})
+        sh.evaluations += 1
+    buf = om_f.copy()
+    for fill in (None, lambda b: b.__iadd__(25.0), lambda b: b.__imul__(-1.0), lambda b: b.__setitem__(slice(None), om_f[::-1] + 0.5)):
+        if fill is not None:
+            fill(buf)
+        gots = {name: np.asarray(fn(buf), float) for name, fn in fns.items()}
+        wants = {name: np.asarray(fn(buf.copy()), float) for name, fn in fns.items()}
+        for name, fn in fns.items():
+            fn(buf)
+        for name in fns:
+            if not np.array_equal(gots[name], wants[name]):
+                sh.violation("transform.%s:stale-answer-after-the-omega-array-was-refilled-in-place" % name, case,
+                             {"max_diff": float(np.abs(gots[name] - wants[name]).max())})
+        sh.evaluations += len(fns)
     # the two solutions are different diffraction events (unless eta is 0/180 exactly) and one of them is the generating one
     d1 = np.abs((o1 - om + 180) % 360 - 180); d2 = np.abs((o2 - om + 180) % 360 - 180)
     lost = sure & ~((d1 < 1e-6) | (d2 < 1e-6))
